@@ -31,6 +31,12 @@ def handlePuzCastleWall : Sexp → Option Sexp
     let a ← cwTable? cwArrow? a
     let i ← cwTable? cwInside? i
     some (CL.puzProgS (program { height := h, width := w, arrow := a, inside := i }))
+  | .list [.atom "puz_castle_wall", h, w, a, i, .atom "fixed"] => do
+    -- the module after the proposed repair of the line-board defect (see `insideCs'`)
+    let h ← h.toNat?; let w ← w.toNat?
+    let a ← cwTable? cwArrow? a
+    let i ← cwTable? cwInside? i
+    some (CL.puzProgS (programWith false { height := h, width := w, arrow := a, inside := i } true))
   | _ => none
 
 end Cspuz.Drv
